@@ -169,12 +169,82 @@ fn run_dict_edge(rep: &mut Report, rng: &mut Rng, thorough: bool, sweep: bool) {
     }
 }
 
+/// streams long enough for the encoder window to move, made of short copies at distances within 64 of the
+/// dictionary size (the history kept across a window move is exactly what such a copy needs), written with
+/// varying first-write sizes so that the move happens at varying offsets
+pub fn far_repeat_data(rng: &mut Rng, dict: usize, total: usize) -> Vec<u8> {
+    let mut data = rng.bytes(dict + 64);
+    while data.len() < total {
+        let dist = dict - rng.below(64) as usize;
+        let len = rng.range(2, 40) as usize;
+        // long stretches at one distance keep it as rep0; occasionally switch
+        let reps = rng.range(1, 30);
+        for _ in 0..reps {
+            for _ in 0..len {
+                let b = data[data.len() - dist];
+                data.push(b);
+            }
+            for _ in 0..rng.below(3) {
+                data.push(rng.next() as u8);
+            }
+        }
+    }
+    data.truncate(total);
+    data
+}
+
+fn run_far_repeats(rep: &mut Report, rng: &mut Rng, thorough: bool, sweep: bool) {
+    let n = if thorough || sweep { 48 } else { 8 };
+    for i in 0..n {
+        let mut r = rng.fork();
+        let dict = if i % 4 == 3 { 65536usize } else { 4096 };
+        let normal = i % 8 >= 6;
+        let bt4 = i % 2 == 1;
+        let lzma2 = dict == 65536; // (LZMA2 with a dictionary below 64 KiB keeps 64 KiB - dict extra history)
+        let total = dict + dict / 2 + (256 << 10) + 545 + r.range(20_000, 60_000) as usize;
+        let data = far_repeat_data(&mut r, dict, total);
+        let o = LzOpts { dict: dict as u32, lc: 3, lp: 0, pb: 2, normal, nice: 32, bt4, depth: 0, preset: None };
+        let first = r.range(1, 70_000) as usize;
+        let mut parts = vec![first];
+        let mut left = data.len() - first;
+        while left > 0 {
+            let k = (r.range(1, 90_000) as usize).min(left);
+            parts.push(k);
+            left -= k;
+        }
+        let detail = || json!({"stratum": "far-repeats", "data_len": data.len(), "opts": o.json(), "format": if lzma2 { "lzma2" } else { "lzma" }, "first_write": first, "data_fnv": fnv(&data)});
+        rep.count("stratum.far-repeats");
+        let ok = if lzma2 {
+            match lzma2_compress(&data, &o, None, &parts, 0) {
+                Outcome::Ok(c) => match lzma2_decompress(&c, o.dict, None, &[65536], data.len() + 16) {
+                    Outcome::Ok((out, used)) => (out == data && used == c.len()).then_some(()).ok_or("different data".to_string()),
+                    other => Err(other.describe()),
+                },
+                other => Err(format!("writer: {}", other.describe())),
+            }
+        } else {
+            match lzma_compress(&data, &o, LzmaFmt::RawMarker, &parts) {
+                Outcome::Ok(c) => match lzma_decompress(&c, &o, LzmaFmt::RawMarker, data.len() as u64, &[65536], data.len() + 16) {
+                    Outcome::Ok((out, _)) => (out == data).then_some(()).ok_or("different data".to_string()),
+                    other => Err(other.describe()),
+                },
+                other => Err(format!("writer: {}", other.describe())),
+            }
+        };
+        if let Err(e) = ok {
+            rep.fail(&format!("{}-roundtrip-far-repeats", if lzma2 { "lzma2" } else { "lzma" }), &format!("long stream of copies at distances dict-63..dict does not round-trip: {e}"), detail());
+        }
+        rep.case(format!("far-repeats:{}:{normal}:{bt4}:{}", dict_class(dict as u32), first % 64), true, || detail());
+    }
+}
+
 pub fn run(rep: &mut Report, rng: &mut Rng, thorough: bool) {
     // a search run (the check re-invokes the engine with seeds >= 1000 when a proof obligation or the
     // correspondence broke) sweeps the targeted strata completely
     let sweep = std::env::args().nth(3).and_then(|s| s.parse::<u64>().ok()).map(|s| s >= 1000).unwrap_or(false);
     run_chunk_limit(rep, rng, thorough, sweep);
     run_dict_edge(rep, rng, thorough, sweep);
+    run_far_repeats(rep, &mut rng.fork(), thorough, sweep);
     run_big_chunks(rep, rng, thorough, sweep);
     let cases = if thorough { 3000 } else { 260 };
     let max = if thorough { 2 << 20 } else { 96 << 10 };
